@@ -759,6 +759,14 @@ func (u *Unit) dispatch(st *State, cs *callSite) []Value {
 			return u.inlineFunc(st, cs, fi)
 		}
 		u.abstract("call of %s: no contract, not inlinable: results unconstrained, heap havocked", funcKey(fn))
+		if u.eng.funcsBase != nil && !u.eng.funcsBase[funcKey(fn)] {
+			root := u
+			for root.parent != nil {
+				root = root.parent
+			}
+			u.newHelpers = append(u.newHelpers, funcKey(fn))
+			root.newHelpers = append(root.newHelpers, funcKey(fn))
+		}
 		u.havocHeap(st, func(string) bool { return true })
 		return u.freshResults(st, cs.sig, fn.Name())
 	}
